@@ -13,7 +13,8 @@ ASSUMPTIONS = [
     "op_mode and the other control inputs are constant during each transmission (request to STP) and the register "
     "writes caused by start-up / by a change between two transmissions have completed (translator not busy for 6 "
     "cycles) before the next transmission or change (changes concurrent with traffic are C24's domain); a packet is "
-    "judged by the op_mode held during it",
+    "judged by the op_mode held during it; exception: 1 mixed-mode step in 3 raises tx_valid 0..6 cycles after the "
+    "change, while the register write it triggers is pending or in flight (inputs still constant request-to-STP)",
     "op_mode is 0 (normal) or 2 (bit-stuffing/NRZI disabled); the PHY never raises DIR between accepting a transmit "
     "command and the STP",
     "PHY obeys ULPI 1.1 (see lunaverif/bfm/g7_ulpi_phy.py)",
@@ -58,10 +59,13 @@ class TranslatorTx(Sub):
             set=st.one_of(
                 st.fixed_dictionaries(dict(op_mode=st.sampled_from([0, 2]))),
                 st.fixed_dictionaries(dict(op_mode=st.sampled_from([2, 0]), xcvr_select=bits(2), term_select=bits(1))))))
-        step = st.tuples(mode, st.lists(st.one_of(
+        # 1 step in 3: the first packet after the change does NOT wait for the register write the change triggers --
+        # tx_valid rises 0..6 cycles after the change (write pending / in flight); inputs still constant request-to-STP
+        early = st.tuples(st.integers(0, 6), G.tx_request()).map(lambda p: dict(p[1], gap=p[0], settle=0))
+        step = st.tuples(mode, st.one_of(st.just(None), st.just(None), early), st.lists(st.one_of(
             settled(G.tx_request()), settled(G.tx_request()), settled(G.tx_request(max_len=40, average=12)),
             G.burst(trig=weighted([(0, 2), (4, 2), (5, 1)]), p_packet=1)), min_size=1, max_size=3)
-        ).map(lambda p: [p[0]] + p[1])
+        ).map(lambda p: [p[0]] + ([p[1]] if p[1] else []) + p[2])
         mixed = st.fixed_dictionaries(dict(
             init=init, delays=G.DELAYS,
             ev=st.tuples(st.lists(settled(G.tx_request()), max_size=2),
@@ -147,6 +151,9 @@ class TranslatorTx(Sub):
             labels.add("interrupted-before-accept")
         if any(s == "CMD:tx" and wire[t][1] for t, s in phy.burst_fires):
             labels.add("interrupted-by-dir+nxt")
+        for rq in reqs:
+            if any(0 <= rq["t_start"] - t <= 6 for t, _ in drv.ctl_log[1:]):
+                labels.add("tx-within-6-cycles-of-control-change")
         if any(s == "IDLE" for _, s in phy.burst_fires):
             labels.add("burst-between-tx")
         return Result(ok=True, nontrivial=nontrivial, labels=tuple(sorted(labels)))
